@@ -2,7 +2,11 @@
    After purgeZeroOffspringSpecies, deltaCoding / giveBabiesToTheBest and purgeOrganisms the quotas of
    Population.Species total the configured population size (the hypothesis of PopNoErr.next_epoch_failures),
    at least one species survives, and "no organism carries a negative ExpectedOffspring" is an
-   invariant of the whole run. *)
+   invariant of the whole run.
+   Since int(math.Floor(x)) is modelled as on amd64 (F64.f_trunc_Z: NaN, the infinities and everything
+   from 2^63 on convert to math.MinInt64), "ExpectedOffspring not below zero" no longer implies that the
+   quotas countOffspring computes are not negative (NaN and +Inf are "not below zero"); that the
+   computed quotas are not negative is therefore part of the float-dependent hypothesis Hsum. *)
 From NeatModel Require Import Compat.
 From NeatModel Require Import Res F64 GoRand Genome Options Insert Dup Mutate Mate Population MonadLemmas
      PopBase PopPrepare PopRepro PopFinal PopInv PopNoErr QuotaReal QuotaSpec QuotaFloat QuotaSteal QuotaSort.
@@ -12,12 +16,15 @@ From Coq Require Import Lia Permutation Floats.
 Definition exps_nonneg (h : list organism) : Prop := forall x, In x h -> PrimFloat.ltb (o_exp x) 0%float = false.
 
 (* the one float-dependent hypothesis ("Hsum"): the floor-and-carry total the chain computes does not
-   exceed the population size *)
+   exceed the population size, and no species' computed quota is negative (a negative quota arises
+   exactly from an out-of-range conversion int(math.Floor(ExpectedOffspring)) = math.MinInt64, i.e.
+   from an ExpectedOffspring that is NaN, +Inf or >= 2^63) *)
 Definition quota_sum_ok (o : options) (p : population) : Prop :=
   forall h1 sps1 p2 sps T,
     adjust_all o (p_heap p) (p_species p) = Ok (h1, sps1) ->
     purge_zero_offspring (p_with p sps1 (p_detached p) (p_orgs p) h1) = Ok p2 ->
-    count_all (p_heap p2) sps1 0%float 0 = Ok (sps, T) -> T <= o_pop_size o.
+    count_all (p_heap p2) sps1 0%float 0 = Ok (sps, T) ->
+    T <= o_pop_size o /\ forall s, In s sps -> 0 <= sp_exp s.
 
 (* ------------------------------------------------------------------------------------------ *)
 (* 1. binary64 sign facts                                                                       *)
@@ -202,6 +209,7 @@ Lemma adjust_fitness_unfold o h s h' s' :
 Proof.
   unfold adjust_fitness. cbv zeta. intros H. rbind H as orgs G.
   destruct (sort_desc org_lt _) as [|top rest] eqn:S; [discriminate|].
+  destruct (Z.ltb (f_trunc_Z _) 0); [discriminate|].
   injection H as <- _. eexists orgs, _, _, _. split; [exact G|]. rewrite S. reflexivity.
 Qed.
 
@@ -352,14 +360,13 @@ Qed.
 
 (* ---------- purgeZeroOffspringSpecies: the kept quotas total the population size ---------- *)
 Lemma purge_zero_quota o p h1 sps1 p2 :
-  Part p -> zlen (p_orgs p) = o_pop_size o -> 0 < o_pop_size o -> exps_nonneg (p_heap p) -> quota_sum_ok o p ->
+  Part p -> zlen (p_orgs p) = o_pop_size o -> 0 < o_pop_size o -> quota_sum_ok o p ->
   adjust_all o (p_heap p) (p_species p) = Ok (h1, sps1) ->
   purge_zero_offspring (p_with p sps1 (p_detached p) (p_orgs p) h1) = Ok p2 ->
   sp_sum (p_species p2) = o_pop_size o /\ (forall s, In s (p_species p2) -> 0 < sp_exp s) /\
   NoDup (map sp_id (p_species p2)).
 Proof.
-  intros HP Hlen Hpos He Hq Ea Ez.
-  pose proof (purge_zero_exps_nonneg _ _ _ _ _ Ea Ez HP He) as He2.
+  intros HP Hlen Hpos Hq Ea Ez.
   pose proof (adjust_all_ok _ _ _ _ _ Ea) as [F1 S1].
   assert (Hnd1 : NoDup (map sp_id sps1)) by (rewrite (forall2_sim_ids _ _ S1); apply HP).
   destruct (purge_zero_unfold _ _ Ez) as (orgs & sps & T & G & _ & Hc & _).
@@ -369,13 +376,13 @@ Proof.
     destruct (part_heap _ HP k) as (x0 & Hx0 & _); [rewrite Eo; now left|].
     destruct (part_back _ HP k x0) as (s & Hs & _); [rewrite Eo; now left|exact Hx0|].
     intros ->. inversion S1 as [E|]. rewrite <- E in Hs. destruct Hs. }
-  destruct (total_robust_float (p_with p sps1 (p_detached p) (p_orgs p) h1) p2 orgs sps T Ez G Hc Hne Hnd1)
+  destruct (Hq _ _ _ _ _ Ea Ez Hc) as [HT Hnn].
+  destruct (total_robust_sum (p_with p sps1 (p_detached p) (p_orgs p) h1) p2 orgs sps T Ez G Hc Hne Hnd1 Hnn)
     as (A1 & _ & A3 & _).
-  { intros s k x _ _ Hg. apply He2. eapply hget_in; eauto. }
   assert (Elen : zlen orgs = o_pop_size o).
   { rewrite <- Hlen. unfold zlen. now rewrite (hgets_length _ _ _ G). }
   split; [|split].
-  - rewrite <- Elen. apply A1. rewrite Elen. exact (Hq _ _ _ _ _ Ea Ez Hc).
+  - rewrite <- Elen. apply A1. rewrite Elen. exact HT.
   - exact A3.
   - destruct (purge_zero_ok _ _ Ez Hnd1) as (sps' & S2 & Es & _). cbn [p_species p_with] in S2.
     rewrite Es. apply NoDup_map_filter. now rewrite (forall2_sim_ids _ _ S2).
@@ -455,13 +462,13 @@ Qed.
 (* ---------- prepareForReproduction ---------- *)
 Theorem prepare_quota_total : forall o p s p1 sorted best s1,
   Part p -> zlen (p_orgs p) = o_pop_size o -> 0 < o_pop_size o ->
-  exps_nonneg (p_heap p) -> quota_sum_ok o p ->
+  quota_sum_ok o p ->
   prepare o p s = Ok ((p1, sorted, best), s1) -> sum_exp (p_species p1) = o_pop_size o.
 Proof.
-  intros o p s p1 sorted best s1 HP Hlen Hpos He Hq H. unfold prepare in H.
+  intros o p s p1 sorted best s1 HP Hlen Hpos Hq H. unfold prepare in H.
   mbind H as r s1' Ha H. apply lift_ok in Ha. destruct Ha as [Ea ->]. destruct r as [h1 sps1].
   mbind H as p2 s2 Hz H. apply lift_ok in Hz. destruct Hz as [Ez ->].
-  destruct (purge_zero_quota _ _ _ _ _ HP Hlen Hpos He Hq Ea Ez) as (Q1 & Q2 & Q3).
+  destruct (purge_zero_quota _ _ _ _ _ HP Hlen Hpos Hq Ea Ez) as (Q1 & Q2 & Q3).
   destruct (sort_desc (species_lt (p_heap p2)) (p_species p2)) as [|b rest] eqn:Sd; [discriminate|].
   assert (Psort : Permutation (b :: rest) (p_species p2)) by (rewrite <- Sd; apply sort_desc_perm).
   mbind H as c s3 Hc H. apply lift_ok in Hc. destruct Hc as [Hc ->].
@@ -492,10 +499,10 @@ Proof.
 Qed.
 
 Theorem quota_survives : forall o p,
-  Part p -> zlen (p_orgs p) = o_pop_size o -> 0 < o_pop_size o -> exps_nonneg (p_heap p) -> quota_sum_ok o p -> survives o p.
+  Part p -> zlen (p_orgs p) = o_pop_size o -> 0 < o_pop_size o -> quota_sum_ok o p -> survives o p.
 Proof.
-  intros o p HP Hlen Hpos He Hq h1 sps1 p2 Ea Ez.
-  destruct (purge_zero_quota _ _ _ _ _ HP Hlen Hpos He Hq Ea Ez) as (Q1 & _). intros E. rewrite E in Q1. cbn in Q1. lia.
+  intros o p HP Hlen Hpos Hq h1 sps1 p2 Ea Ez.
+  destruct (purge_zero_quota _ _ _ _ _ HP Hlen Hpos Hq Ea Ez) as (Q1 & _). intros E. rewrite E in Q1. cbn in Q1. lia.
 Qed.
 
 (* ------------------------------------------------------------------------------------------ *)
